@@ -587,3 +587,42 @@ func verifLemma_C16_shadowed_relation_is_not_reported() {
 	}
 	verifrt.Assert(m == 1, "exactly-the-upper-version")
 }
+
+func (w vListWorld) FindReferences(id b6.FeatureID, typed ...b6.FeatureType) b6.Features {
+	var found []b6.Feature
+	for _, f := range w.fs {
+		if r, ok := f.(*RelationFeature); ok {
+			for _, m := range r.Members {
+				if m.ID == id {
+					found = append(found, WrapRelationFeature(r, w))
+					break
+				}
+			}
+		}
+	}
+	return b6.NewFeatureIterator(found)
+}
+
+// ---- C15: referrers after a replacement (bounded shape) ---------------------------------------
+// Base: relation 7 with member point 1. The relation is replaced in a mutable overlay world
+// by a version whose only member is point 2. The features referring to point 1 must no
+// longer include relation 7; those referring to point 2 include it once.
+func verifLemma_C15_replaced_referrer_is_not_reported() {
+	p1, p2 := FromOSMNodeID(1), FromOSMNodeID(2)
+	base7 := &RelationFeature{RelationID: FromOSMRelationID(7), Members: []b6.RelationMember{{ID: p1}}}
+	w := NewMutableOverlayWorld(vListWorld{fs: []b6.Feature{base7}})
+	upper7 := &RelationFeature{RelationID: FromOSMRelationID(7), Members: []b6.RelationMember{{ID: p2}}}
+	verifrt.Assert(w.AddFeature(upper7) == nil, "replacement-accepted")
+	stale := 0
+	rs := w.FindReferences(p1)
+	for rs.Next() {
+		stale++
+	}
+	verifrt.Assert(stale == 0, "replaced-relation-no-longer-refers-to-its-old-member")
+	n := 0
+	rs = w.FindReferences(p2)
+	for rs.Next() {
+		n++
+	}
+	verifrt.Assert(n == 1, "and-refers-to-its-new-member-once")
+}
